@@ -215,3 +215,64 @@ _enumerated("verif.output.Output.csv+text#BOUNDED:header,rows,precision,-f", ("C
             "tables of 1..3 rows x 1..3 columns with values drawn (seeded) from {0, +-1, 1/3, 123456.789, 1e-7, 1e12, 1.2345678e-4, NaN, +-inf}, three kinds of "
             "row descriptors, with and without -f: compared character by character with an independent rendering (csv: %g, text: %.4g, padded columns)",
             _writers(), ["verif.output.Output.csv", "verif.output.Output.text"])
+
+
+# ------------------------------------------------------------------ row descriptors (Data.get_axis_descriptions, get_legend / names)
+def _descriptors():
+    import datetime
+    import verif.data
+    import verif.location
+    from .axis import local_timezone
+
+    def body():
+        cases = 0
+        for tz in ("UTC", "PST8", "CET-1"):
+            with local_timezone(tz):
+                d = object.__new__(verif.data.Data)
+                d.times = _np.array([1325376000, 1325397600, 1330473600 + 3600, 1356998399, 4102444800 - 86400], int)   # 2012-01-01 00/06, 2012-02-29 01, 2012-12-31 23:59:59, 2099-12-31
+                d.leadtimes = _np.array([0.0, 6.0, 30.5])
+                d.locations = [verif.location.Location(3, 60.5, 10.25, 100.0), verif.location.Location(18, -33.0, 151.0, 5.0)]
+                for axis in (verif.axis.Time(), verif.axis.Day(), verif.axis.Month(), verif.axis.Year(), verif.axis.Week()):
+                    got = d.get_axis_descriptions(axis)
+                    vals = d.get_axis_values(axis)
+                    want = {axis.name(): [(datetime.datetime(1970, 1, 1) + datetime.timedelta(seconds=int(v))).strftime(axis.fmt) for v in vals]}
+                    cases += 1
+                    if got != want:
+                        return cases, {"axis": axis.name(), "local-time-zone-of-the-process": tz, "got": got, "want": want}
+                for axis in (verif.axis.Location(), verif.axis.Lat(), verif.axis.Lon(), verif.axis.Elev()):
+                    got = d.get_axis_descriptions(axis)
+                    want = {"id": [3, 18], "lat": [60.5, -33.0], "lon": [10.25, 151.0], "elev": [100.0, 5.0]}
+                    cases += 1
+                    if got != want:
+                        return cases, {"axis": axis.name(), "got": got, "want": want}
+                for axis in (verif.axis.Leadtime(), verif.axis.Leadtimeday(), verif.axis.Timeofday(), verif.axis.Monthofyear(), verif.axis.No()):
+                    got = d.get_axis_descriptions(axis)
+                    vals = d.get_axis_values(axis)
+                    cases += 1
+                    if list(got.keys()) != [axis.name()] or list(got[axis.name()]) != list(vals):
+                        return cases, {"axis": axis.name(), "got": str(got), "want": str({axis.name(): list(vals)})}
+        # legend / names: legend if given, the climatology is never a column
+        class _In(object):
+            def __init__(self, n):
+                self.fullname = "/some/dir/%s.txt" % n
+                self.name = "%s.txt" % n
+                self.shortname = n
+        for clim in (False, True):
+            for legend in (None, ["L1", "L2"]):
+                d = object.__new__(verif.data.Data)
+                d._inputs = [_In("a"), _In("b")] + ([_In("clim")] if clim else [])
+                d._clim = d._inputs[-1] if clim else None
+                d._legend = legend
+                cases += 1
+                ok = (d.get_names() == ["a.txt", "b.txt"] and d.get_short_names() == ["a", "b"] and d.get_full_names() == ["/some/dir/a.txt", "/some/dir/b.txt"]
+                      and d.get_legend() == (legend or ["a.txt", "b.txt"]) and d._get_num_inputs() == 2)
+                if not ok:
+                    return cases, {"clim": clim, "legend": legend, "names": d.get_names(), "legend-returned": d.get_legend(), "num_inputs": d._get_num_inputs()}
+        return cases, None
+    return body
+
+
+_enumerated("verif.data.Data.get_axis_descriptions+get_legend#BOUNDED:row-descriptors-and-column-labels", ("C12", "C14", "C11"),
+            "five time-like, four location-like and five other axes on a small dataset, with the process in three local time zones (the labels are UTC dates); "
+            "names / legend with and without climatology and -leg",
+            _descriptors(), ["verif.data.Data.get_axis_descriptions", "verif.data.Data.get_legend", "verif.data.Data.get_names", "verif.data.Data.get_axis_values"])
